@@ -435,6 +435,8 @@ def rule_G(ctx):
         'spike': [(0, 0), (10, 0), (10.5, 7), (11, 0), (21, 0)],
         'sub-millimetre scale (a receiver standing still: distinct fixes 0.05 mm apart)': [(0, 0), (0.00004, 0.00003), (0.00008, 0), (0.00012, 0.00005), (0.00016, 0), (0.0002, 0.00004)],
         'a fix 0.05 mm after the farthest one': [(0, 0), (10, 0), (10, 5), (10.00003, 5.00004), (10, 0.5), (20, 0)],
+        'a straight run on heading (3, 1) from (0.1, 0.7), then a turn': [(0.1 + 3 * k, 0.7 + k) for k in range(5)] + [(13.1, 9.7)],
+        'five collinear fixes on heading (0.3, 0.7)': [(0.1 + 0.3 * k, 0.2 + 0.7 * k) for k in range(5)],
     }
     eps_list = (0.00001, 0.25, 2.0, 6.0, 11.0, 25.0, 1.0e6)
     found = {}
